@@ -24,7 +24,7 @@ CHECKS = {
    category="model_checking", design_ref="DESIGN.md §5 C05",
    technique="enumeration of values × codecs × link prototypes × implementations against hand-assembled CIDs, plus explicit-state search over store/compute/load histories on the real LinkSystem (state = stored set + last operation, to fixpoint) and all operation sequences to depth 3/4",
    text="Store = ComputeLink = hand-assembled CID (sha2-256/512/identity by crypto/*; all 80+ registered hashers for self-consistency), independent of implementation and (DAG codecs) of insertion order; every load function returns the canonical value and raw bytes hashing to the link; every answer is the same in every explored history.",
-   note="Trusted: crypto/sha256, crypto/sha512, go-multihash for other hash functions. dag-json/json domain excludes integral floats (recorded under C04). Typed (bindnode) nodes of the schema families are stored and linked too (both views; struct-keyed maps through their representation view only). The universe includes the shapes DAG-JSON reserves and their near misses for every codec whose domain holds them (plain json included); histories also over cidlink.Memory."),
+   note="Trusted: crypto/sha256, crypto/sha512, go-multihash for other hash functions. dag-json/json domain excludes integral floats (recorded under C04). Typed (bindnode) nodes of the schema families are stored and linked too (both views; struct-keyed maps through their representation view only). The universe includes the shapes DAG-JSON reserves and their near misses for every codec whose domain holds them (plain json included); histories also over cidlink.Memory. Also a sweep of the stores the library ships (memstore, cidlink.Memory) over every scalar, the empty containers and small values under every codec, against the harness store."),
  "C06": dict(
    category="fault_enumeration", design_ref="DESIGN.md §5 C06", engine="fault",
    technique="exhaustive single-fault enumeration on the storage seam: every bit flip, truncation, extension, substitution, read error offset and chunking of every block × 4 load functions; every failing Write call, accessor failure, opener and commit error on Store",
@@ -34,12 +34,12 @@ CHECKS = {
    category="model_checking", design_ref="DESIGN.md §5 C07",
    technique="bounded-exhaustive enumeration of selector ASTs (≤3/4 clauses + targeted union/recursion families) × block graphs (≤4/5 nodes, every cut into blocks, dangling/shared links), each walked by the real WalkAdv/WalkMatching and compared with an independent substitution-style reference denotation",
    text="Every (selector, graph) pair in the bound is compiled by the real parser and walked over real blocks stored in a real link system; the visit sequence (path, node content, reason), the link-load sequence and the matching-only walk must equal the reference denotation written by substitution from the documented semantics.",
-   note="Trusted: reference denotation mc/trav/refwalk.go. Known finding: one depth counter per merged union (known_findings.json). ExploreInterpretAs/ADL reification and conditions other than stop-at-link are outside the alphabet. Stop-at-link conditions are enumerated with every link of the graph as the condition on recursions reaching their edge after 1–3 steps. Also: graphs with raw-twin links (one multihash, two CIDs) under stop-at conditions; the package-level traversal.WalkAdv/WalkMatching on link-free graphs; the selector spec builder, JSON selector helpers and pre-parsed common selectors against the specification tree."),
+   note="Trusted: reference denotation mc/trav/refwalk.go. Known finding: one depth counter per merged union (known_findings.json). ExploreInterpretAs/ADL reification and conditions other than stop-at-link are outside the alphabet. Stop-at-link conditions are enumerated with every link of the graph as the condition on recursions reaching their edge after 1–3 steps. Also: graphs with raw-twin links (one multihash, two CIDs) under stop-at conditions; the package-level traversal.WalkAdv/WalkMatching on link-free graphs; the selector spec builder, JSON selector helpers and pre-parsed common selectors against the specification tree. The interpret-as clause is covered where a clause hands it to a node directly (two reifiers registered in the link system, the same functions in the reference); its meaning as a union member or recursion body is written down nowhere and is not generated."),
  "C14": dict(
    category="model_checking", design_ref="DESIGN.md §5 C14",
    technique="exhaustive enumeration of graphs × every visit of every walk, every node position, every path ≤3 segments over a 10-segment alphabet, every segment string ≤3 bytes; Get/Focus/stepwise lookup on the real code vs a reference resolver",
    text="For every visit of every enumerated walk (and WalkLocal) the reported path, as reported and re-parsed, must resolve through Get, Focus and segment-by-segment lookup (loading links) to the visited node; every position's own path resolves in string, int and parsed form; every short path succeeds exactly when the reference resolver finds it; String/ParsePath round-trips every clean segment sequence.",
-   note="Trusted: reference resolver trav.Resolve. Non-canonical numerals on lists are unspecified (agreement only). Also: comb graphs to depth 6/18 whose visit paths are resolved after the walk; every program of Path operations to depth 4/5 (append-only 6/8) with every live path re-checked after every step; typed nodes (reflection binding, both views) as walk roots. Also: escape-looking segments and keys (~0 ~1 %2F backslash . .. ? #); package-level traversal.Get/Focus on link-free graphs."),
+   note="Trusted: reference resolver trav.Resolve. Non-canonical numerals on lists are unspecified (agreement only). Also: comb graphs to depth 6/18 whose visit paths are resolved after the walk; every program of Path operations to depth 4/5 (append-only 6/8) with every live path re-checked after every step; typed nodes (reflection binding, both views) as walk roots. Also: escape-looking segments and keys (~0 ~1 %2F backslash . .. ? #); package-level traversal.Get/Focus on link-free graphs. Selector walks are repeated with LinkVisitOnlyOnce on graphs with two or more links."),
  "C15": dict(
    category="model_checking", design_ref="DESIGN.md §5 C15",
    technique="exhaustive enumeration of every setting of each traversal control (node budget 0..|U|+1, link budget 0..|L|+1, start-at every visited path, visit-once, every skip set ≤2/3) for every (graph, selector) pair, compared with the prefix/suffix/subsequence of the unrestricted real walk",
@@ -49,7 +49,7 @@ CHECKS = {
    category="model_checking", design_ref="DESIGN.md §5 C16",
    technique="exhaustive enumeration of graphs × target paths ≤2/3 segments × replacements × createParents, selector-driven transforms for every selector ≤3 clauses × 3 transform functions, and all 2-step transform sequences, against a functional-update reference with hand-hashed re-linking",
    text="Every focused transform in the bound must equal the reference functional update (content, order, links recomputed by hand), leave the input node and blocks unchanged, call the callback once with the node at the target, fail exactly where the target is unreachable; walking transforms must replace exactly the matched nodes and re-link across links; chained transforms never disturb earlier results.",
-   note="Trusted: reference update in mc/props/c16, reference DAG-CBOR encoder + crypto/sha256 for new links. Root replacement is limited to what the root's prototype accepts; root removal and non-canonical indices are unspecified; a tree consisting of the null singleton alone is not a root (its prototype cannot build). Each compiled selector is used twice per case. Also: integer-form segments for canonical numerals on every focused path; maps whose keys are equal as numerals (1|01|+1|001)."),
+   note="Trusted: reference update in mc/props/c16, reference DAG-CBOR encoder + crypto/sha256 for new links. Root replacement is limited to what the root's prototype accepts; root removal and non-canonical indices are unspecified; a tree consisting of the null singleton alone is not a root (its prototype cannot build). Each compiled selector is used twice per case. Also: integer-form segments for canonical numerals on every focused path; maps whose keys are equal as numerals (1|01|+1|001). Typed positions also come from the schema's own account (map entries by the key's representation string)."),
  "C01": dict(
    category="model_checking", design_ref="DESIGN.md §5 C01",
    technique="bounded-exhaustive enumeration of values × builder programs by deviation bound (default route, every single and every pair of route deviations, Reset-reuse) executed on the real builders, read back by a complete observer; all-pairs DeepEqual/Copy agreement across implementations",
@@ -84,7 +84,7 @@ CHECKS = {
    category="model_checking", design_ref="DESIGN.md §5 C09",
    technique="exhaustive single-mutation closure: every conforming tree of every typed value at both levels and every local mutation of it at every position, fed through three routes (entry, key/value, relaxed dag-cbor so duplicate keys reach the assembler) into both engines; verdicts compared with reference acceptance relations",
    text="accepted ⇔ the reference accepts; every rejection is an error from an assembler call or finish (never a panic, never a silently built violating node); an accepted input reads back as the reference's typed value.",
-   note="Trusted: mc/rs AcceptType/AcceptRepr. Inputs differing from a conforming tree by more than one local mutation are not enumerated. Recorded defects: known_findings.json. Inputs are also fed as DAG-JSON text (reported under the decoder route) wherever the text format can carry them."),
+   note="Trusted: mc/rs AcceptType/AcceptRepr. Inputs differing from a conforming tree by more than one local mutation are not enumerated. Recorded defects: known_findings.json. Inputs are also fed as DAG-JSON text (reported under the decoder route) wherever the text format can carry them. Mutants include near keys (other case, a byte appended, the last byte dropped)."),
  "C13": dict(
    category="model_checking", design_ref="DESIGN.md §5 C13",
    technique="programs: schema families generated by gengo.Generate from the working tree and compiled (failure = violation); inputs: the C09 mutation closure; lock-step differential execution of bindnode and generated code",
@@ -99,7 +99,7 @@ CHECKS = {
    category="model_checking", design_ref="DESIGN.md §5 C20", engine="sched",
    technique="stateless exploration of all interleavings (preemption bound 2/3) of every unordered pair of 33 operations on shared objects under a cooperative scheduler, with scheduling points inserted by overlay rewriting at every accessor of shared mutable state and at every sync operation (sync shim with modelled lock waits); plus exhaustive write-footprint analysis of each operation (deep fingerprints of shared objects and package-level state), a footprint sweep over every selector of ≤5/6 clauses used for walks and transforms, a footprint sweep over every family root type × values (reflection binding) and generic nodes read nine ways, and a separate free-running -race pass over all pairs",
    text="(a) every schedule within the bound of every operation pair: each goroutine's result equals its result alone, no panic, no deadlock; (b) no operation on shared objects, run alone, changes any shared object or package-level mutable state unless it synchronises; (c) the race detector reports nothing on any pair with 2 and 8 goroutines.",
-   note="Interleavings are explored at hook granularity (accessors of TypeSystem, Registry, Config/Progress init, lazy store initialisers, inferSchema, sync operations), not at every memory access; (b) sees persistent writes only; (c) is a free-running happens-before detector, used as the brief prescribes for unsynchronised accesses. Memory-model effects are not modelled. Known finding: reader-backed bytes nodes. The shared read-only store also holds a block that fails its hash check; raw loads of intact blocks beside and after a mismatching load are operations of the alphabet."),
+   note="Interleavings are explored at hook granularity (accessors of TypeSystem, Registry, Config/Progress init, lazy store initialisers, inferSchema, sync operations), not at every memory access; (b) sees persistent writes only; (c) is a free-running happens-before detector, used as the brief prescribes for unsynchronised accesses. Memory-model effects are not modelled. Known finding: reader-backed bytes nodes. The shared read-only store also holds a block that fails its hash check; raw loads of intact blocks beside and after a mismatching load are operations of the alphabet. Path values shared by walks (built by appending, obtained by Pop) are among the shared objects."),
  "C10": dict(
    category="model_checking", design_ref="DESIGN.md §5 C10",
    technique="exhaustive enumeration of short inputs over structural alphabets for every decoder under a lattice of configurations (depth limit × allocation budget × strict/relaxed × prealloc cap × links × stream mode × target prototype), depth bombs through a depth-observing assembler proxy, systematic hostile claimed lengths in an address-space-limited single-goroutine worker with allocation accounting, exhaustive small selector-spec trees compiled and walked, and every short path string",
